@@ -391,6 +391,14 @@ class Prog:
         kw = {}
         if psi0 is not None:
             kw["psi0"] = psi0
+        self.single = False
+        if self.kind in ("Circuit", "CircuitDense", "CircuitMPS", "CircuitMPSLazy") and rng.integers(0, 8) == 0:
+            kw["dtype"] = str(rng.choice(["complex64", "complex128"]))
+            self.opts["dtype"] = kw["dtype"]
+            self.single = kw["dtype"] == "complex64"
+            if self.kind in ("Circuit", "CircuitDense") and rng.integers(0, 2):
+                kw["convert_eager"] = bool(rng.integers(0, 2))
+                self.opts["convert_eager"] = kw["convert_eager"]
         if self.kind == "Circuit":
             gc = str(rng.choice(["default", "default", "auto-split-gate", "split-gate", "swap-split-gate", "False", "True"]))
             if gc != "default":
@@ -455,7 +463,7 @@ class Prog:
         return d
 
     def tol(self, single=False):
-        if single:
+        if single or self.single:
             return 2e-4
         if self.kind == "CircuitMPSLazy" and self.opts.get("method") == "dm":
             return 1e-6 if self.tight else 1e-4
@@ -537,7 +545,7 @@ def make_gate(P):
         Uin = None
     parametrize = (not raw) and TABLE[label][1] > 0 and P.kind == "Circuit" and not controls and \
         P.opts.get("gate_contract") in ("default", "False", "auto-split-gate") and rng.integers(0, 3) == 0
-    spelling = int(rng.integers(0, 4))
+    spelling = int(rng.integers(0, 5))
     tensor_form = bool(rng.integers(0, 2))
     gopts = {}
     if P.kind == "Circuit" and rng.integers(0, 8) == 0 and not parametrize:
@@ -558,7 +566,9 @@ def make_gate(P):
             return
         if parametrize:
             kw["parametrize"] = True
-        if spelling == 0:
+        if spelling == 4 and not controls and not parametrize and not gopts and hasattr(circ, label.lower()):
+            getattr(circ, label.lower())(*params, *qubits)  # circ.h(i), circ.rzz(theta, i, j), ...
+        elif spelling in (0, 4):
             circ.apply_gate(label, *params, *qubits, **kw)
         elif spelling == 1:
             circ.apply_gate(label.lower(), params=params, qubits=qubits, **kw)
@@ -926,7 +936,7 @@ def q_sample(P):
         got = list(P.circ.sample(C, seed=seed, **kw))
         if len(got) != C:
             return f"{len(got)} samples != {C}"
-        return _check_samples(got, [P.prob] * C, qubits_out, grp, seed, 2e-3 if single else 1e-6)
+        return _check_samples(got, [P.prob] * C, qubits_out, grp, seed, 2e-3 if (single or P.single or not P.tight) else 1e-6)
 
     return "sample", dict(C=C, copied_since_gate=copied, opts=str(sorted((k, str(v)) for k, v in kw.items()))), thunk
 
@@ -947,7 +957,7 @@ def q_sample_interleaved(cx, P):
         box["grp"] = groups if groups is not None else _mps_groups(P)
         b = next(box["it"])
         box["b1"] = b
-        return _check_samples([b], [P.prob], qubits_out, box["grp"], seed, 2e-3 if single else 1e-6)
+        return _check_samples([b], [P.prob], qubits_out, box["grp"], seed, 2e-3 if (single or P.single or not P.tight) else 1e-6)
 
     r = cx.check("sample: first sample of a generator agrees with the state", dict(params, phase="before-gate"), first)
     if "it" not in box:
@@ -975,7 +985,7 @@ def q_sample_interleaved(cx, P):
             p = marginal(prob, grp, result)
             u = r2.random()
             x = int("".join(bit[q] for q in grp), 2)
-            if p.sum() <= 0 or not cdf_consistent(u, p, x, 2e-3 if single else 1e-6):
+            if p.sum() <= 0 or not cdf_consistent(u, p, x, 2e-3 if (single or P.single or not P.tight) else 1e-6):
                 return (f"second sample {b2} (after the gate): qubits {grp} given {result} inconsistent with the conditional of "
                         f"the state of the gates applied so far at the uniform draw {u:.6f}")
             for q in grp:
@@ -1163,7 +1173,15 @@ def programs(cx):
     if not _numpy_choice_assumption():
         cx.inconclusive.append("numpy Generator.choice no longer inverts the cdf at one uniform draw")
         return
-    nprog = 560 if cx.quick else 5000
+    try:
+        # the harness runs drivers in daemonic worker processes, which may not start the process pool that cotengra's
+        # 'auto' path optimizers create for larger networks: mark this process as a worker (serial path search)
+        import cotengra.parallel as _ctp
+
+        _ctp._IS_WORKER = True
+    except Exception:  # noqa
+        pass
+    nprog = 3600 if cx.quick else 36000
     only_h = _hist_from_key(cx.only_key) if cx.only_key is not None else None
     skip_to = _hist_from_key(cx.resume_after) if cx.resume_after is not None else None
     for pid in range(nprog):
